@@ -94,7 +94,7 @@ void eval(Ctx& c) {
 }
 }  // namespace
 void reg_powerlaw() {
-  Sol s; s.name = "navierstokes_4d_compressible_powerlaw"; s.prop = "C03"; s.nargs = 4; s.draw = draw; s.point = box_point; s.eval = eval;
+  Sol s; s.name = "navierstokes_4d_compressible_powerlaw"; s.prop = "C03"; s.nargs = 4; s.draw = draw; s.point = box_point; s.eval = eval; s.stretch = 2;
   s.special_ok = [](const std::string& n) {
     if (n == "kappa_r" || n == "lambda_r" || n == "beta") return 2;
     if (n.size() < 3 || n[1] != '_') return 0;
